@@ -2,6 +2,7 @@ import XrsVerif.Proofs.ViewshedSweep
 import XrsVerif.Proofs.ViewshedDelExact
 import XrsVerif.Proofs.ViewshedOutput
 import XrsVerif.Proofs.ViewshedEvents
+import XrsVerif.Proofs.ViewshedDiscipline
 import XrsVerif.Gen.ViewshedFacts
 import Mathlib.Tactic.Positivity
 /-
@@ -47,6 +48,31 @@ import Mathlib.Tactic.Positivity
                                  still holds, so `query_decides` still applies).
     * the output rule            observer 180, invisible -1, visible = the vertical angle, which lies in
                                  (0, 180) and is 90 exactly for a level target, over hypotheses on `atan`.
+    * the event geometry (section 6, `Model/ViewshedEvents.lean`, exact integers / rationals, for ALL raster sizes,
+      observer positions and terrains):
+        `three_events_per_cell`, `event_count`   every non-observer cell yields exactly ENTER, CENTER, EXIT;
+        `enter_corner_smallest_exit_corner_largest`
+                                 which corner `_calc_event_pos` calls entering / exiting (the if-chain is read from the
+                                 source) IS the corner of smallest / largest bearing, by exact cross products;
+        `initial_iff_span_contains_bearing_zero`, `initial_status_set`
+                                 the cells put into the status structure before the sweep are exactly those whose span
+                                 contains bearing 0: the observer's row, strictly east;
+        `corner_elevation_local`, `corner_elevation_value`, `corner_cells_are_the_block_at_the_corner`
+                                 a corner elevation is the mean of the 2 x 2 block at the corner (own elevation at the
+                                 border) and depends on nothing else;
+        `initial_fill_uses_corner_elevations`, `init_fill_buffer_written_after_corner_elevations`
+                                 the observer-row buffer that seeds the status structure carries those corner elevations
+                                 (model), and the source writes it after computing them (fact read from the source);
+        `events_sorted`, `cell_events_in_sweep_order`
+                                 the lexsort order (bearing by half plane + cross product, then type) is a total preorder;
+                                 in the sorted list a cell's events come ENTER, CENTER, EXIT -- on the east ray CENTER,
+                                 EXIT, ENTER;
+        `cell_operation_sequence`, `insert_delete_counts`, `sweep_discipline`, `sweep_without_initial_fill_breaks`
+                                 over initial fill + sweep every cell is inserted, queried, deleted in this order (east ray:
+                                 and re-inserted at the very end); an insertion never meets an active cell, a query or
+                                 deletion always does; without the initial fill this fails.
+      NOT in the model: the float value of a bearing (`atan`), of a gradient (`atan`, `sqrt`) -- compared by seam 0 / the
+      geometric oracle of the correspondence; NaN terrains (outside the property's quantifier).
 -/
 set_option linter.unusedSectionVars false
 set_option linter.unusedVariables false
@@ -616,6 +642,73 @@ theorem corner_elevation_source_shape :
       "inrast[1][col1]", "inrast[1][event_col]"] ∧
     Gen.Viewshed.cornerElevNanFallback = "inrast[1][event_col]" ∧
     Gen.Viewshed.cornerElevMean = "(elev1 + elev2 + elev3 + elev4) / 4.0" := by decide
+
+/-- **the event order is a sort**: the model of `np.lexsort((type, bearing))` -- bearing in [0, 2π) compared exactly by half
+    plane and cross product, ties by the type code EXIT < CENTER < ENTER -- returns a permutation of the generated events
+    in which every earlier event is `≤` every later one (the comparison is a total preorder on ALL events) -/
+theorem events_sorted (T : Int → Int → Rat) (h w : Nat) (vr vc : Int) :
+    (sortedEvents T h w vr vc).Perm (eventList T h w vr vc) ∧
+    (sortedEvents T h w vr vc).Pairwise (fun a b => evLe vr vc a b = true) :=
+  ⟨sortedEvents_perm T h w vr vc, sortedEvents_pairwise T h w vr vc⟩
+
+/-- **within the sweep a cell's events come as ENTER, CENTER, EXIT** (entering corner < centre < exiting corner as bearings
+    in [0, 2π)); the cells on the east ray are the exception the initial fill exists for: CENTER (bearing 0) first, then
+    EXIT, and ENTER at the very end of the sweep.  For all raster sizes, observer positions, terrains. -/
+theorem cell_events_in_sweep_order (T : Int → Int → Rat) (h w : Nat) (vr vc r c : Int) :
+    (sortedEvents T h w vr vc).filter (ofCell r c) =
+      if 0 ≤ r ∧ r < h ∧ 0 ≤ c ∧ c < w ∧ ¬(r = vr ∧ c = vc) then
+        (if r = vr ∧ vc < c
+         then [mkEvent T h w vr vc r c 0, mkEvent T h w vr vc r c (-1), mkEvent T h w vr vc r c 1]
+         else [mkEvent T h w vr vc r c 1, mkEvent T h w vr vc r c 0, mkEvent T h w vr vc r c (-1)])
+      else [] :=
+  sortedEvents_filter_cell_int T h w vr vc r c
+
+/-- **the status-structure operations of one cell over initial fill + sweep** (1 insert, 0 query, -1 delete):
+    insert, query, delete for every cell off the east ray; initial insert, query, delete, insert for the cells on it (the
+    second insertion, at the cell's ENTER event just below 2π, is never undone -- the sweep ends there); nothing for the
+    observer's cell.  So every cell is deleted exactly once and queried exactly once, between an insertion and that deletion. -/
+theorem cell_operation_sequence (T : Int → Int → Rat) (h w : Nat) (vr vc : Int) (hobs : 0 ≤ vr ∧ vr < h) (r c : Int) :
+    kinds (sweepOps T h w vr vc) r c =
+      if 0 ≤ r ∧ r < h ∧ 0 ≤ c ∧ c < w ∧ ¬(r = vr ∧ c = vc) then
+        (if r = vr ∧ vc < c then [1, 0, -1, 1] else [1, 0, -1])
+      else [] :=
+  kinds_sweepOps T h w vr vc hobs r c
+
+/-- each cell of the raster other than the observer's is deleted exactly once, queried exactly once, and inserted exactly once
+    before that -- the cells of the east ray a second time after it -/
+theorem insert_delete_counts (T : Int → Int → Rat) (h w : Nat) (vr vc : Int) (hobs : 0 ≤ vr ∧ vr < h) (r c : Int)
+    (hin : 0 ≤ r ∧ r < h ∧ 0 ≤ c ∧ c < w ∧ ¬(r = vr ∧ c = vc)) :
+    (kinds (sweepOps T h w vr vc) r c).count (-1) = 1 ∧ (kinds (sweepOps T h w vr vc) r c).count 0 = 1 ∧
+    (kinds (sweepOps T h w vr vc) r c).count 1 = (if r = vr ∧ vc < c then 2 else 1) ∧
+    (kinds (sweepOps T h w vr vc) r c).take 3 = [1, 0, -1] := by
+  rw [kinds_sweepOps T h w vr vc hobs, if_pos hin]
+  split <;> decide
+
+/-- **the active-set discipline**: replaying the initial fill and then the sorted events, every insertion is of a cell that is
+    not in the status structure and every deletion and every query is of a cell that is -- so the key a query or a deletion
+    looks up is present (what `query_decides` / `delete_preserves_*` assume), and no cell is ever in the structure twice -/
+theorem sweep_discipline (T : Int → Int → Rat) (h w : Nat) (vr vc : Int) (hobs : 0 ≤ vr ∧ vr < h) :
+    replay [] (sweepOps T h w vr vc) = true :=
+  replay_sweepOps T h w vr vc hobs
+
+/-- ... and the initial fill is what makes it hold: without it, as soon as there is a cell east of the observer, the first
+    event of the sweep queries a cell that is not in the structure -/
+theorem sweep_without_initial_fill_breaks (T : Int → Int → Rat) (h w : Nat) (vr vc : Int) (hobs : 0 ≤ vr ∧ vr < h)
+    (heast : 0 ≤ vc ∧ vc + 1 < w) : replay [] ((sortedEvents T h w vr vc).map opOfEvent) = false := by
+  rw [Bool.eq_false_iff]
+  intro hrep
+  have := (replay_iff _ _).mp hrep vr (vc + 1)
+  rw [kinds_map_opOfEvent, sortedEvents_filter_cell_int, if_pos (by omega), if_pos (by omega)] at this
+  obtain ⟨k1, k0, km⟩ := kind_opOfEvent_mkEvent T h w vr vc vr (vc + 1)
+  simp only [List.map_cons, List.map_nil, k1, k0, km] at this
+  have hc : ([] : List (Int × Int)).contains (vr, vc + 1) = false := rfl
+  rw [hc] at this
+  exact absurd this (by decide)
+
+/-- non-vacuity: instances on a 3 x 4 raster seen from (1, 1) -/
+example : replay [] (sweepOps (fun i j => (i * j : Int)) 3 4 1 1) = true ∧
+    replay [] ((sortedEvents (fun i j => (i * j : Int)) 3 4 1 1).map opOfEvent) = false :=
+  ⟨sweep_discipline _ 3 4 1 1 (by decide), sweep_without_initial_fill_breaks _ 3 4 1 1 (by decide) (by decide)⟩
 
 end Events
 
